@@ -143,6 +143,21 @@ class World:
                 cnt = {k: self.called.count(k) for k in set(self.called)}
                 if any(v != (2 if k[0] == 'sx' else 1) for k, v in cnt.items()):
                     return 'ok', f'plugin call counts {cnt}'
+            elif f == 'runauth':
+                before = self.snapshot()
+                self.called = []
+                cache = {'sigfield1': b'\xaa'}
+                cid = CONTRACTS[1][0]
+                s1 = bytes.fromhex('0500' '06')                                   # msg x00 pop0
+                s2 = bytes.fromhex('0500' '06' '0200') + bytes([3, len(cid)]) + cid + bytes.fromhex('55' '06' '01')  # ... push d0 push id invoke pop0 true
+                ok = F.run_auth_scripts([s1, s1, s2], cache)
+                used = sorted({i for (s2_, i) in self.called if s2_ == 'sx'})
+                cnt = {k: self.called.count(k) for k in set(self.called)}
+                if used != before['sx'] or any(v != 3 for v in cnt.values()):
+                    return ('true' if ok else 'false'), f'run_auth_scripts used signature extensions {cnt} but active are {before["sx"]} (3 instructions)'
+                if cache != {'sigfield1': b'\xaa'}:
+                    return ('true' if ok else 'false'), 'run_auth_scripts modified the caller\'s cache dictionary'
+                return ('true' if ok else 'false'), None
             elif f in ('compile', 'assemble'):
                 src, expect = SOURCES[s]
                 out = F and (P.compile_script(src) if f == 'compile' else P.assemble(P.get_symbols(src)))
@@ -197,7 +212,7 @@ def record_history(seed: int, n: int):
     extras = []
     try:
         for _ in range(n):
-            f = r.choice(['add_plugin'] * 4 + ['remove_plugin'] * 3 + ['reset_plugins', 'add_contract', 'add_contract', 'remove_contract',
+            f = r.choice(['add_plugin'] * 4 + ['remove_plugin'] * 3 + ['reset_plugins', 'add_contract', 'add_contract', 'remove_contract', 'runauth',
                           'add_iface', 'remove_iface', 'add_alias', 'run', 'run', 'compile', 'compile', 'assemble', 'assemble'])
             if f in ('add_plugin', 'remove_plugin'):
                 c = {'f': f, 's': r.choice(['sx', 'ct']), 'x': r.randrange(1, 4)}
@@ -205,7 +220,7 @@ def record_history(seed: int, n: int):
                 c = {'f': f, 's': r.choice(['sx', 'ct']), 'x': 0}
             elif f in ('add_contract', 'remove_contract', 'add_iface', 'remove_iface', 'add_alias'):
                 c = {'f': f, 's': '', 'x': r.randrange(1, 3)}
-            elif f == 'run':
+            elif f in ('run', 'runauth'):
                 c = {'f': f, 's': '', 'x': 0}
             else:
                 c = {'f': f, 's': r.choice(list(SOURCES)), 'x': 0}
